@@ -155,6 +155,27 @@ class _State:
         return s
 
 
+_CANON = None
+
+
+def _canon_params(f):
+    """Parameter names of f as they were on the pinned tree (frozen in canon_params.json), so that a mere renaming of a
+    parameter does not change the symbolic terms the rules match on.  None if unknown or the arity changed."""
+    global _CANON
+    if _CANON is None:
+        import json
+        import os
+        try:
+            with open(os.path.join(os.path.dirname(os.path.abspath(__file__)), 'canon_params.json')) as fh:
+                _CANON = json.load(fh)
+        except OSError:
+            _CANON = {}
+    c = _CANON.get(f.qual)
+    if c is not None and len(c) == len(f.params()):
+        return c
+    return None
+
+
 def _is_mutable_display(sym):
     if isinstance(sym, (ast.List, ast.Dict, ast.Set, ast.ListComp, ast.DictComp, ast.SetComp)):
         return True
@@ -211,8 +232,9 @@ class PathSim:
     def run(self):
         st = _State()
         f = self.func
-        for p in f.params():
-            st.env[(0, p)] = ast.Name(id=p, ctx=ast.Load())
+        canon = _canon_params(f)
+        for i, p in enumerate(f.params()):
+            st.env[(0, p)] = ast.Name(id=(canon[i] if canon else p), ctx=ast.Load())
         frame = (f, 0, 0)
         results = self.exec_block(f.node.body, st, frame)
         paths = []
